@@ -9,7 +9,7 @@ def run(tier):
     run = Run("C10", tier)
     run.confirm_known()
     q = tier == "quick"
-    to = 600 if q else 3000
+    to = 600 if q else 3600
     conds = []
     for shape in range(3):
         for op0 in range(16):
@@ -19,7 +19,7 @@ def run(tier):
                 continue
             conds.append(Cond("h_tree.py", "bookkeeping", to, twin="reach" if (op0 in (5, 9, 11) and shape == 0) else None,
                               path_timeout=to / 2, env=dict({"H_OP0": str(op0), "H_SHAPE": str(shape), "H_OPS": "2"},
-                                                            **({"H_MAXARG": "3", "H_LATER": "0,1,2,3,6,7,11,13"} if q else {}))))
+                                                            **({"H_MAXARG": "3", "H_LATER": "0,1,2,3,6,7,11,13"} if q else {"H_MAXARG": "4"}))))
     # constraint-driven repair must leave the individual it repairs untouched, too (inputs and outputs of the
     # repair pipeline are checked for consistent parent links / sizes / hashes)
     for spec in ("rep2", "range"):
@@ -33,7 +33,7 @@ def run(tier):
     run.bounds = {"initial trees": "3 shapes (<= 7 nodes; one with sender, one mixing 'x' / b'x' / bit leaves)",
                   "operations": "16 codes: add_child, set_children, symbol=, sender=, recipient=, deepcopy, slicing/indexing, selector searches, "
                                 "value/hash, split_end, prefix, replace, crossover, mutation, switch current tree, path accessors",
-                  "sequence length": 2, "operand": "node index 0..3 (quick) / 0..6 (mod size)", "later operations (quick)": "add_child, set_children, symbol=, sender=, slicing, searches, replace, mutation"}
+                  "sequence length": 2, "operand": "node index 0..3 (quick) / 0..4 (mod size)", "later operations (quick)": "add_child, set_children, symbol=, sender=, slicing, searches, replace, mutation"}
     run.outside = ["longer operation sequences", "RepetitionBoundsSuggestion repairs (see C01 operator harness)",
                    "parser-produced trees (ParserDerivationTree skips size updates by design)"]
     run.assumptions = ["finite operand domains -> the engine exhausts the sequences by path splitting",
